@@ -106,7 +106,7 @@ def c16_4(ctx):
     ctx.count(1, fn.where())
     els = [s for s in fn.body if isinstance(s, ast.If) and N(s.test) == 'unique']
     ctx.need(els, 'unique switch of ulist.__init__ not found')
-    body = els[0].orelse
+    body = else_of(els[0])
     txt = [N(s.value) for s in body if isinstance(s, (ast.Assign, ast.Expr))]
     want = NS('super(ulist, self).__init__([v for _, v in sorted([(orig.index(u), u) for u in set(orig)])])')
     if want not in txt:
@@ -171,7 +171,7 @@ def c16_5(ctx):
     if not br or not any(isinstance(x, ast.Raise) and 'ValueError' in U(x) for x in br[0].body):
         ctx.fail(fn, br[0] if br else loop, 'a round without any independent callable (a cycle) does not raise ValueError')
     else:
-        prog = br[0].orelse
+        prog = else_of(br[0])
         shr = [s for s in prog if isinstance(s, ast.Assign) and U(s.targets[0]) == 'callables']
         if not shr or N(shr[0].value) != NS('{key: value for key, value in callables.items() if not key in independent}'):
             ctx.fail(fn, shr[0] if shr else br[0], 'the evaluated callables are not removed from the pending ones: %s' % (U(shr[0].value)[:80] if shr else 'no shrinking'))
